@@ -30,8 +30,8 @@ theorem HasNul.reg {D : Desc} {s s' : St} {f : Fsm} {p : Nat} (h : SameReg D f s
   exact ⟨n, a, b, by rw [h n b]; exact c⟩
 
 theorem OobF.reg {D : Desc} {s s' : St} {f : Fsm} (hph : s'.ph f = s.ph f) (hsrc : s'.wsrc f = s.wsrc f) (hwst : s'.wst f = s.wst f)
-    (hpos : s'.pos f = s.pos f) (hb : SameReg D f s s') (o : OobF D s f) : OobF D s' f := by
-  refine ⟨?_, ?_, ?_, ?_⟩
+    (hpos : s'.pos f = s.pos f) (hb : SameReg D f s s') (hw : s'.waiting f → s.waiting f) (o : OobF D s f) : OobF D s' f := by
+  refine ⟨?_, ?_, ?_, ?_, fun a => ⟨by rw [hpos]; exact (o.wait (hw a)).pos, by rw [hsrc, hwst]; exact (o.wait (hw a)).src⟩⟩
   · intro a b; rw [hpos]; exact (o.main (hph ▸ a) (hsrc ▸ b)).reg hb
   · intro a off b; rw [hpos]; exact o.nl (hph ▸ a) off (hsrc ▸ b)
   · intro a b; exact (o.first (hph ▸ a) (hwst ▸ b)).reg hb
@@ -84,7 +84,7 @@ theorem serviceBody_oob {D : Desc} (s : St) (i : SvcIn) (hu : i.hu.ret ≠ 4) (h
   have w1 : Wf D s1 := w.step kl krg kr.2.1
   have reg1 : SameReg D .cmd s s1 := sameReg_cmd_of_take kr.1
   have ph1 : s1.ph .cmd = s.ph .cmd := by simp only [St.ph]; rw [kc.1.2.2.2.2.2.2.2.1]
-  have oc1 : OobF D s1 .cmd := OobF.reg ph1 kc.1.2.2.2.2.2.2.2.2.2.1 kc.1.2.2.2.2.2.2.2.2.2.2.1 kc.2.1 reg1 o.c
+  have oc1 : OobF D s1 .cmd := OobF.reg ph1 kc.1.2.2.2.2.2.2.2.2.2.1 kc.1.2.2.2.2.2.2.2.2.2.2.1 kc.2.1 reg1 (fun h => by simp only [St.waiting] at h ⊢; rw [← kc.1.2.2.2.2.2.2.2.1]; exact h) o.c
   have oa1 : OobA D s1 := by
     refine ⟨fun h => ?_, fun h => ?_⟩
     · have := o.a.args (by rw [← kc.1.2.2.2.2.2.2.2.1]; exact h)
@@ -115,7 +115,7 @@ theorem serviceBody_oob {D : Desc} (s : St) (i : SvcIn) (hu : i.hu.ret ≠ 4) (h
   have w2 : Wf D s2 := w1.step cl crg kur.2.2
   have reg2 : SameReg D .uns s1 s2 := sameReg_uns_of_drop kur.1 kur.2.1
   have ph2 : s2.ph .uns = s1.ph .uns := by simp only [St.ph]; rw [ku.1.1]
-  have ou2 : OobF D s2 .uns := OobF.reg ph2 ku.1.2.2.2.2.1 ku.1.2.2.2.2.2.1 ku.2 reg2 us.2
+  have ou2 : OobF D s2 .uns := OobF.reg ph2 ku.1.2.2.2.2.1 ku.1.2.2.2.2.2.1 ku.2 reg2 (fun h => by simp only [St.waiting] at h ⊢; rw [← ku.1.1]; exact h) us.2
   exact ⟨cs.1.trans us.1, w2, ⟨cs.2.1, cs.2.2, ou2⟩⟩
 
 /-! ### steps that change nothing the invariants read -/
@@ -160,7 +160,7 @@ theorem DescEq.hasNul {D D' : Desc} (h : DescEq D D') {s : St} {f : Fsm} {p : Na
 
 theorem DescEq.oobF {D D' : Desc} (h : DescEq D D') {s : St} {f : Fsm} (o : OobF D s f) : OobF D' s f :=
   ⟨fun a b => h.hasNul (o.main a b), o.nl, fun a b => h.hasNul (o.first a b),
-   fun a => by have := o.loop a; exact ⟨by rw [h.capOf]; exact this.1, by rw [h.getB]; exact this.2⟩⟩
+   fun a => by have := o.loop a; exact ⟨by rw [h.capOf]; exact this.1, by rw [h.getB]; exact this.2⟩, o.wait⟩
 
 theorem DescEq.keep {D D' : Desc} (h : DescEq D D') {s : St} (w : Wf D s) (o : OobAll D s) : Wf D' s ∧ OobAll D' s := by
   have hc : D'.cmdCap = D.cmdCap := h.capOf .cmd
